@@ -406,3 +406,48 @@ def pairing(ctx, vcfg):
     if not out.ok:
         return
     ctx.ensure("recovers_the_transmitted_bits", SP.shape_is(out.value, (nsym * sc.b,)) and SP.all_eq(P(out.value), np.asarray(vals, dtype=object)))
+
+
+# ================================================================================================ option spellings (closed)
+@obligation("C15.input_type_spellings", function="; ".join(FT + ":" + c + ".forward" for c in ("FixedThresholder", "AdaptiveThresholder", "HysteresisThresholder", "WeightedThresholder", "DynamicThresholder", "MinDistanceThresholder", "RepetitionSoftBitDecoder")),
+            configs=lambda tier: [Cfg("spelling", n) for n in ("fixed", "mindist", "weighted", "hysteresis", "dynamic", "adaptive", "repetition_mean")], kind="ground", engine="ground")
+def input_type_spellings(cfg):
+    """InputType is a str-valued enum: `input_type="llr"` (what a configuration file or the registry hands over) must select the same
+    LLR-mode consumer as `input_type=InputType.LLR`.  Closed: every LLR word over {-20, -3, -0.4, 0.4, 3, 20} of length 4 (1296 words),
+    fresh object per word; the two constructions must return identical bits"""
+    import itertools
+
+    T = _thr()
+    name = cfg[1]
+
+    def mk(it):
+        if name == "fixed":
+            return T.FixedThresholder(threshold=0.0, input_type=it)
+        if name == "mindist":
+            return T.MinDistanceThresholder(input_type=it)
+        if name == "weighted":
+            return T.WeightedThresholder(weights=1.0, threshold=0.5, input_type=it)
+        if name == "hysteresis":
+            return T.HysteresisThresholder(input_type=it)
+        if name == "dynamic":
+            return T.DynamicThresholder(input_type=it)
+        if name == "adaptive":
+            return T.AdaptiveThresholder(input_type=it)
+        return T.RepetitionSoftBitDecoder(repetition_factor=2, soft_combine_method="mean", input_type=it)
+
+    bad = []
+    n = 0
+    for w in itertools.product((-20.0, -3.0, -0.4, 0.4, 3.0, 20.0), repeat=4):
+        x = torch.tensor([w])
+        n += 1
+        try:
+            with torch.no_grad():
+                a, b = mk(T.InputType.LLR)(x), mk("llr")(x)
+        except Exception as e:
+            bad.append(f"{w}: raised {e!r}")
+            break
+        if tuple(a.shape) != tuple(b.shape) or not torch.equal(a, b):
+            bad.append(f"llr {list(w)}: enum construction -> {a.tolist()}, string construction -> {b.tolist()}")
+            if len(bad) > 2:
+                break
+    yield "string_and_enum_select_the_same_consumer", not bad, "; ".join(bad[:2]) or f"{n} LLR words"
